@@ -3,7 +3,7 @@
 World C: one real ClientSession against 1-3 scripted raw origins that may
 misbehave (surplus / unsolicited responses and fragments, early responses to
 uploads, truncation, close, reset, stall, FIN or junk while the connection
-idles in the pool), directly or through scripted forwarding proxies (absolute
+idles in the pool; also well-behaved: interim 1xx responses before a later final response), directly or through scripted forwarding proxies (absolute
 form and CONNECT tunnels) with per-request proxy credentials / TLS settings.
 Every response carries a marker (origin, connection, the request id it answers
 or 'none', serial).  DESIGN.md section 9, C06.
@@ -36,7 +36,9 @@ LEVEL_TEXT = (
     "connection are a sequence of complete requests (no request inside a body that was announced and not sent); all requests "
     "one connection carried name the same route (host, port, TLS flag and settings, proxy, proxy credentials and headers); "
     "a connection taken from the pool is not one the client already knew to have ended (transport closing: FIN read, or "
-    "closed by the client after unparsable bytes) at the step it is handed out. Sampling, not proof."
+    "closed by the client after unparsable bytes) at the step it is handed out; when a connection without stray bytes is "
+    "handed to its next request, the peer's complete final answer to the request before it has reached the client (a "
+    "response that has not arrived cannot have been read to its end). Sampling, not proof."
 )
 LEVEL_NOTE = (
     "Trusted: the scripted origins' bookkeeping (what they sent, at which stream offset), SimNet delivery log (arrival "
@@ -61,6 +63,10 @@ RULE = (
     "In 12 % of the runs: the peer closes the connection, or sends non-HTTP bytes on it, 1-8 ms after a complete answer "
     "(while it idles in the pool) and the next request for the same route is issued at that instant +-1 ms after 0-3 extra "
     "turns of the loop, so that re-acquisition falls before / between / after 'end processed' and connection_lost(). "
+    "In 10 % of the runs: interim responses - a well-behaved peer answers a complete request with one or two 1xx responses "
+    "(103, 102, an unsolicited 100, unregistered 1xx codes; never 101) and sends the final response 0-8 ms later in a write "
+    "of its own, answering in request order; the task's next request mostly goes to the same route at once or around the "
+    "instant the final response arrives. "
     "Non-trivial: a connection was reused at least once AND at least one misbehaviour or caller-side abnormal end fired."
 )
 COMPONENTS = {
@@ -97,6 +103,9 @@ JUNK = [b"this is not http\r\n\r\n", b"\x15\x03\x01\x00\x02\x02\x28\r\n\r\n", b"
 # the components of a request's route that are judged by connection_shared_across_routes (host, port and the TLS flag
 # have invariants of their own)
 _ROUTE_PARTS = ("proxy", "proxy_credentials", "proxy_headers", "tls_settings", "server_hostname")
+# interim (1xx) responses a peer may send before the final one (101 is not interim: it ends the HTTP exchange)
+INTERIM_CODES = [103, 103, 103, 102, 100, 199, 110]
+INTERIM_REASONS = {100: b"Continue", 102: b"Processing", 103: b"Early Hints"}
 # stray bytes that stop short of a complete message (sent after a complete answer): index = behaviour argument
 FRAGMENTS = [
     b"HTTP/1.1 2",                                   # (0) the original surplus_partial: cut inside the status line
@@ -131,6 +140,7 @@ def gen(rng, tier, index):
     # the scenarios, so that all other scenarios stay exactly what they were.
     _gen_extras(scn, random.Random(rng.getrandbits(64)))
     _gen_routes_and_idle_end(scn, random.Random(rng.getrandbits(64)))
+    _gen_interim(scn, random.Random(rng.getrandbits(64)))
     return scn
 
 
@@ -204,6 +214,31 @@ def _gen_routes_and_idle_end(scn, rng):
                 i += 1
 
 
+def _gen_interim(scn, rng):
+    """(e) interim responses: a well-behaved peer sends one or two 1xx responses (103 Early Hints, 102 Processing, an
+    unsolicited 100 Continue, an unregistered 1xx) when the request is complete and the final response 0-8 ms later, in
+    a write of its own - the exchange is not over when the interim response has been read.  The following request of
+    the same task mostly goes to the same route, at once or around the instant the final response arrives."""
+    if rng.random() >= 0.10:
+        return
+    for reqs in scn["tasks"]:
+        for i, r in enumerate(reqs):
+            if r["beh"] == "stall" or rng.random() >= 0.55:
+                continue
+            codes = [rng.choice(INTERIM_CODES) for _ in range(rng.choice([1, 1, 1, 2]))]
+            r["interim"] = {"codes": codes, "delay": rng.choice([0, 1, 3, 3, 8]), "hdr": rng.random() < 0.5}
+            if rng.random() < 0.7:
+                r["after"] = "read"
+            if i + 1 < len(reqs) and rng.random() < 0.7:
+                nx = reqs[i + 1]
+                nx["origin"] = r["origin"]
+                for f in ("via", "tls"):
+                    nx.pop(f, None)
+                    if f in r:
+                        nx[f] = dict(r[f])
+                nx["gap"] = rng.choice([0, 0, 0, 1, r["interim"]["delay"], r["interim"]["delay"] + 2])
+
+
 def shrink(scn):
     if scn["cancels"]:
         for i in range(len(scn["cancels"])):
@@ -224,7 +259,7 @@ def shrink(scn):
                     yield dict(scn, tasks=ts[:ti] + [reqs[:i] + [dict(r, **{k: v})] + reqs[i + 1:]] + ts[ti + 1:])
             if r["beh"] not in ("ok",):
                 yield dict(scn, tasks=ts[:ti] + [reqs[:i] + [dict(r, beh="ok", total=None)] + reqs[i + 1:]] + ts[ti + 1:])
-            for f in ("via", "tls", "yields"):
+            for f in ("via", "tls", "yields", "interim"):
                 if r.get(f):
                     yield dict(scn, tasks=ts[:ti] + [reqs[:i] + [{k: v for k, v in r.items() if k != f}] + reqs[i + 1:]] + ts[ti + 1:])
             via = r.get("via")
@@ -232,6 +267,13 @@ def shrink(scn):
                 for k, v in (("px", 0), ("cred", None), ("tag", None), ("how", "hdr")):
                     if via[k] != v:
                         yield dict(scn, tasks=ts[:ti] + [reqs[:i] + [dict(r, via=dict(via, **{k: v}))] + reqs[i + 1:]] + ts[ti + 1:])
+            it = r.get("interim")
+            if it:
+                if len(it["codes"]) > 1:
+                    for j in range(len(it["codes"])):
+                        yield dict(scn, tasks=ts[:ti] + [reqs[:i] + [dict(r, interim=dict(it, codes=it["codes"][:j] + it["codes"][j + 1:]))] + reqs[i + 1:]] + ts[ti + 1:])
+                if it["hdr"]:
+                    yield dict(scn, tasks=ts[:ti] + [reqs[:i] + [dict(r, interim=dict(it, hdr=False))] + reqs[i + 1:]] + ts[ti + 1:])
             if r["beh"].startswith("idle_junk:"):
                 yield dict(scn, tasks=ts[:ti] + [reqs[:i] + [dict(r, beh="idle_close:" + r["beh"].split(":")[1])] + reqs[i + 1:]] + ts[ti + 1:])
             if r["beh"].startswith("partial_later:"):
@@ -343,6 +385,8 @@ def _run(scn, ch, log, connector_mod, BaseConn):
                 c.off = 0        # stream offset (client -> origin) of c.buf[0]
                 c.mode = "head"  # what the origin's request framing expects next: "head" | "body" | "dead"
                 c.cur = None
+                c.busy = False   # an exchange's final answer is still to come (interim response sent): answers go out in order
+                c.waiting = []
 
             def respond(self, c, req_tag, kind, body=b"", chunked=False, extra_hdr=b"", declared=None, status=200,
                         reason=b"OK"):
@@ -421,7 +465,9 @@ def _run(scn, ch, log, connector_mod, BaseConn):
                                        "start": start, "end": None, "framing": framing, "answered": False,
                                        "left": int(low.get(b"content-length", b"0")), "cstate": "size",
                                        "expect": low.get(b"expect", b"").lower() == b"100-continue",
-                                       "early": opts.get("e"), "edelay": int(opts.get("d", "0"))}
+                                       "early": opts.get("e"), "edelay": int(opts.get("d", "0")),
+                                       "interim": [int(x) for x in opts["i"].split(".")] if opts.get("i") else [],
+                                       "idelay": int(opts.get("w", "0")), "ihdr": opts.get("h") == "1"}
                         info["framed"].append(cur)
                         c.mode = "body"
                         if framing != "none":
@@ -497,8 +543,37 @@ def _run(scn, ch, log, connector_mod, BaseConn):
                     return
                 if c.transport is None or c.transport.is_closing():
                     return
+                if c.busy:
+                    # a peer answers in the order it was asked: this answer waits for the final answer still owed
+                    if cur not in c.waiting:
+                        c.waiting.append(cur)
+                    return
                 cur["answered"] = True
+                if cur["interim"]:
+                    # a well-behaved peer: interim response(s) now, the final response in a write of its own
+                    for code in cur["interim"]:
+                        serial[0] += 1
+                        n = serial[0]
+                        marker = b"X-M: o%d.c%d.q%d.n%d" % (c.oidx, c.cid, cur["rid"], n)
+                        hint = b"Link: </style.css>; rel=preload\r\n" if cur["ihdr"] else b""
+                        self.send(c, n, b"HTTP/1.1 %d %s\r\n" % (code, INTERIM_REASONS.get(code, b"Interim")) + marker + b"\r\n"
+                                  + hint + b"\r\n", cur["rid"], "interim")
+                    probes["interim_sent"] = probes.get("interim_sent", 0) + 1
+                    if cur["idelay"]:
+                        c.busy = True
+                        loop.sim_call_later(cur["idelay"] * 0.001, self.final, c, cur)
+                        return
                 self.behave(c, cur["rid"], cur["beh"], cur["args"][0] if cur["args"] else 0, cur)
+
+            def final(self, c, cur):
+                c.busy = False
+                waiting, c.waiting = c.waiting, []
+                if conns[c.cid]["closed_by_server_step"] is not None or c.transport is None or c.transport.is_closing():
+                    return
+                probes["final_after_interim_later"] = probes.get("final_after_interim_later", 0) + 1
+                self.behave(c, cur["rid"], cur["beh"], cur["args"][0] if cur["args"] else 0, cur)
+                for nxt in waiting:
+                    self.answer(c, nxt)
 
             def behave(self, c, rid, beh, arg, cur=None):
                 info = conns[c.cid]
@@ -760,6 +835,9 @@ def _run(scn, ch, log, connector_mod, BaseConn):
                     url += f"?e={up['early']}&d={up['edelay']}"
             elif r["post"]:
                 kw["data"] = b"p" * 30
+            it = r.get("interim")
+            if it:
+                url += ("&" if "?" in url else "?") + f"i={'.'.join(str(x) for x in it['codes'])}&w={it['delay']}&h={int(it['hdr'])}"
             try:
                 resp = await meth(url, **kw)
             except asyncio.CancelledError:
@@ -902,6 +980,10 @@ def _run(scn, ch, log, connector_mod, BaseConn):
             ho = handover.get(rid)
             arr = arrival_step(cid, ent["a"]) if ent is not None and cid in conns else None
             early = ho is not None and arr is not None and arr < ho[0]
+            if ent is not None and ent["kind"] == "interim" and q == str(rid):
+                # not judged here: the caller was given an interim response of its own exchange (bytes sent after the
+                # hand-over); what the property forbids is what follows - see reused_before_response_complete
+                probes["interim_given_to_caller"] = probes.get("interim_given_to_caller", 0) + 1
             if q != str(rid):
                 kind = ent["kind"] if ent else "?"
                 if kind == "answer" and cid in conns and any(n2 < n and _k != "partial" for _k, n2 in conns[cid]["abnormal"]):
@@ -998,6 +1080,16 @@ def _run(scn, ch, log, connector_mod, BaseConn):
                 if ho is None:
                     continue
                 prev = reqs[idx - 1][0]
+                # a connection whose response has not been received completely is not reused: when it is handed to the
+                # next request, the peer's whole (final) answer to the request before it - one the origin took for a
+                # well-formed request, on a connection that carried no stray bytes - must have reached the client
+                if (not info["abnormal"] and any(fr["rid"] == prev and fr["end"] is not None for fr in info["framed"])
+                        and all_reqs.get(prev) is not None and not answer_complete_before(cid, prev, ho[0])):
+                    violate("no_reuse_after_abnormal", "reused_before_response_complete",
+                            f"connection c{cid} was handed to request {rid} at step {ho[0]} ({ho[1]}) although the peer's final "
+                            f"answer to request {prev}, the exchange before it on this connection, had not (completely) reached "
+                            f"the client by then: that response cannot have been read to its end"
+                            + (f" (the peer sent interim response(s) {all_reqs[prev]['interim']['codes']} first)" if all_reqs[prev].get("interim") else ""))
                 # server-side misbehaviour whose stray bytes reached the client before this hand-over
                 # only the first stray message is judged: everything after it on this connection is a cascade
                 for kind, n2 in sorted(info["abnormal"], key=lambda kn: kn[1])[:1]:
@@ -1026,7 +1118,7 @@ def _run(scn, ch, log, connector_mod, BaseConn):
         for rid, oc in sorted(outcomes.items()):
             r = all_reqs[rid]
             mk = delivered.get(rid)
-            own = mk is not None and mk[2].decode() == str(rid)
+            own = mk is not None and mk[2].decode() == str(rid) and sent.get(int(mk[3]), {}).get("kind") != "interim"
             if oc[0] == "resp_read" and r["beh"] in ("trunc", "reset_mid") and own:
                 violate("no_truncated_as_complete", f"truncated_body_delivered_complete:{r['beh']}",
                         f"request {rid}: peer truncated the body ({r['beh']}) but read() returned {oc[2][:40]!r} without error")
